@@ -56,6 +56,24 @@ func EvOf(raw bson.Raw) *Ev {
 	return e
 }
 
+// watchSkipped reports whether a watch op has no usable start position (then no call is made).
+func (w *World) watchSkipped(op Op) bool {
+	kind, arg := op.Start, 0
+	if i := strings.IndexByte(op.Start, ':'); i > 0 {
+		kind = op.Start[:i]
+		fmt.Sscanf(op.Start[i+1:], "%d", &arg)
+	}
+	w.mu.Lock()
+	defer w.mu.Unlock()
+	switch kind {
+	case "resume", "after":
+		return w.tokens[arg] == nil
+	case "old", "oldtime":
+		return arg >= len(w.Old)
+	}
+	return false
+}
+
 func (w *World) streamOp(ctx context.Context, a *actor, op Op, res *OpResult) error {
 	switch op.Kind {
 	case "watch":
@@ -69,21 +87,37 @@ func (w *World) streamOp(ctx context.Context, a *actor, op Op, res *OpResult) er
 		tok, tm := w.tokens[arg], w.times[arg]
 		w.mu.Unlock()
 		switch kind {
+		case "old", "oldtime":
+			// hand-made position: the arg-th event of the oplog that existed before the scenario
+			if arg >= len(w.Old) {
+				res.Cls = "skipped"
+				return nil
+			}
+			ts := primitive.Timestamp{T: w.Old[arg].T, I: w.Old[arg].I}
+			res.Start = w.Old[arg].ID()
+			if kind == "old" {
+				o.SetResumeAfter(bson.D{{Key: "ts", Value: ts}})
+			} else {
+				o.SetStartAtOperationTime(&ts)
+			}
 		case "resume":
 			if tok == nil {
 				res.Cls = "skipped"
 				return nil
 			}
+			res.Start = fmt.Sprintf("%d.%d", tm.T, tm.I)
 			o.SetResumeAfter(tok)
 		case "after":
 			if tok == nil {
 				res.Cls = "skipped"
 				return nil
 			}
+			res.Start = fmt.Sprintf("%d.%d", tm.T, tm.I)
 			o.SetStartAfter(tok)
 		case "time":
 			// at the cluster time of the last event delivered on the slot
 			t := tm
+			res.Start = fmt.Sprintf("%d.%d", tm.T, tm.I)
 			o.SetStartAtOperationTime(&t)
 		case "time0":
 			o.SetStartAtOperationTime(&primitive.Timestamp{T: 1, I: 0})
